@@ -771,7 +771,7 @@ func c05Random[V any](c *run.Ctx, k omKind[V], phase string) {
 		switch i % 4 {
 		case 3:
 			// keys that look like other YAML/JSON types or need quoting
-			alphabet = []string{"", "1", "007", "true", "~", "a b", "0x10", "é", "null", "1.50", "- x", "k: v"}
+			alphabet = []string{"", "1", "007", "true", "~", "a b", "0x10", "é", "null", "1.50", "- x", "k: v", "\x1b[0m", "bell\a", "\v", "del\x7f", "nul\x00", "tag\U000e0001", "<&>"}
 			fullEvery = 2
 		case 0:
 			alphabet = []string{"a", "b", "c", "d"}
